@@ -24,7 +24,8 @@ APIS = {"dynamo0.3": "dynamo0p3", "gocean1.0": "gocean1p0"}
 # a fixed core (INC / discontinuous / built-ins with and without reduction / stencils / several kernels) + a seeded sample
 CORE = {"dynamo0.3": ["1_single_invoke.f90", "1_single_invoke_w3.f90", "4_multikernel_invokes.f90",
                       "15.9.1_X_innerproduct_Y_builtin.f90", "15.1.1_X_plus_Y_builtin.f90", "19.1_single_stencil.f90",
-                      "10_operator.f90", "4.8_multikernel_invokes.f90"],
+                      "10_operator.f90", "4.8_multikernel_invokes.f90", "24.1_mesh_prop_invoke.f90",
+                      "23.1_ref_elem_invoke.f90"],
         "gocean1.0": ["single_invoke.f90", "test31_stencil_not_parallel.f90", "single_invoke_grid_props.f90",
                       "single_invoke_two_kernels_scalars.f90", "single_invoke_write_to_read.f90",
                       "test28_invoke_kernel_stencil.f90", "large_stencil.f90"]}
